@@ -33,7 +33,23 @@ def theorems_table():
     return "\n".join(rows)
 
 
+def known_findings_index():
+    """known_findings.json: the one-file view of findings/*.json (open findings with the input that fails, repaired ones as
+    'fixed: property=<id> <commit> <what failed>'); the checks read the per-finding files, this index is regenerated from them"""
+    out = {"comment": "generated from findings/KF-*.json by `python -m vlib.docgen`; the checks read findings/*.json (witness, classifier); never written at check time",
+           "open": [], "fixed": []}
+    for f in sorted(glob.glob(os.path.join(VERIF, "findings", "KF-*.json")), key=lambda p: int(re.search(r"KF-(\d+)", p).group(1))):
+        e = json.load(open(f))
+        if e["status"] == "fixed":
+            out["fixed"].append({"id": e["id"], "properties": e["properties"], "line": e.get("fixed", ""), "file": "findings/" + os.path.basename(f)})
+        else:
+            out["open"].append({"id": e["id"], "properties": e["properties"], "what_fails": e["what"], "identified_by": e.get("classifier", ""),
+                                "call_site": e.get("call_site", ""), "file": "findings/" + os.path.basename(f)})
+    json.dump(out, open(os.path.join(VERIF, "known_findings.json"), "w"), indent=1)
+
+
 def main():
+    known_findings_index()
     p = os.path.join(VERIF, "DESIGN.md")
     s = open(p).read()
     for name, fn in (("findings", findings_table), ("seeded", seeded_table), ("theorems", theorems_table)):
